@@ -123,6 +123,135 @@ fn fmt_lines(set: BTreeSet<i32>) -> String {
 // length or address shows up as a wrong line set for the file that follows.
 const DECOY: &str = "pragma solidity ^0.7.1;\ncontract Decoy { uint public _v; address o;\n function k(uint[] memory m) external { require(_v > 0 && m.length >= 1, \"this message is longer than thirty-two bytes!\"); _v = _v / 2 * 4; _v++; selfdestruct(payable(o)); }\n function t(address a) public { IERC20(a).transfer(a, address(this).balance); }\n}\n";
 
+// A SIBLING of a source: the same text with every ordinary lower-case identifier renamed (last character advanced) and
+// `+` / `-` exchanged - same length, same layout, same contract names, the same node kinds at the same byte offsets, but
+// other names and other findings.  It is analysed right before the source itself (as the decoy is): whatever is
+// remembered per (file number, contract name, location, length) from one file must not reach the next one.
+fn sibling(src: &str) -> Option<String> {
+    const KEEP: &[&str] = &[
+        "abstract", "anonymous", "as", "assembly", "break", "calldata", "catch", "constant", "constructor", "continue", "contract",
+        "delete", "do", "else", "emit", "enum", "error", "event", "external", "fallback", "for", "from", "function", "global", "if",
+        "immutable", "import", "indexed", "interface", "internal", "is", "let", "library", "mapping", "memory", "modifier", "new",
+        "override", "payable", "private", "public", "pure", "receive", "return", "returns", "revert", "storage", "struct", "throw",
+        "try", "type", "unchecked", "using", "view", "virtual", "while", "bool", "string", "address", "bytes", "byte", "int", "uint",
+        "true", "false", "wei", "gwei", "ether", "seconds", "minutes", "hours", "days", "weeks", "years", "var", "this", "super",
+        "require", "assert", "msg", "sender", "value", "data", "sig", "block", "tx", "origin", "abi", "encode", "encodePacked",
+        "decode", "keccak256", "sha256", "selfdestruct", "suicide", "transfer", "transferFrom", "approve", "balance", "length",
+        "push", "pop", "add", "sub", "mul", "div", "now", "call", "send", "delegatecall", "staticcall", "gas", "hex", "unicode",
+        "solidity", "experimental", "abicoder", "switch", "case", "default", "leave", "fixed", "ufixed", "timestamp", "number",
+    ];
+    let b = src.as_bytes();
+    let n = b.len();
+    let mut out: Vec<u8> = Vec::with_capacity(n);
+    let is_id = |c: u8| c.is_ascii_alphanumeric() || c == b'_' || c == b'$' || c >= 0x80;
+    let mut i = 0usize;
+    let mut in_asm = 0usize; // brace depth inside an assembly block (its identifiers are left alone)
+    let mut asm_pending = false;
+    while i < n {
+        let c = b[i];
+        if c == b'/' && i + 1 < n && b[i + 1] == b'/' {
+            while i < n && b[i] != b'\n' && b[i] != b'\r' {
+                out.push(b[i]);
+                i += 1;
+            }
+        } else if c == b'/' && i + 1 < n && b[i + 1] == b'*' {
+            let mut j = i + 2;
+            while j + 1 < n && !(b[j] == b'*' && b[j + 1] == b'/') {
+                j += 1;
+            }
+            j = (j + 2).min(n);
+            out.extend_from_slice(&b[i..j]);
+            i = j;
+        } else if c == b'"' || c == b'\'' {
+            let q = c;
+            out.push(c);
+            i += 1;
+            while i < n && b[i] != q && b[i] != b'\n' {
+                if b[i] == b'\\' && i + 1 < n {
+                    out.push(b[i]);
+                    i += 1;
+                }
+                out.push(b[i]);
+                i += 1;
+            }
+            if i < n {
+                out.push(b[i]);
+                i += 1;
+            }
+        } else if c.is_ascii_digit() {
+            // a number: copied as it is (with a signed exponent)
+            while i < n && (is_id(b[i]) || b[i] == b'.') {
+                out.push(b[i]);
+                i += 1;
+                if (b[i - 1] == b'e' || b[i - 1] == b'E') && i < n && b[i] == b'-' && !(i >= 2 && b[i - 2] == b'x') {
+                    out.push(b[i]);
+                    i += 1;
+                }
+            }
+        } else if is_id(c) {
+            let mut j = i;
+            while j < n && is_id(b[j]) {
+                j += 1;
+            }
+            let w = &src[i..j];
+            if w == "pragma" || w == "import" {
+                while j < n && b[j] != b';' {
+                    j += 1;
+                }
+                out.extend_from_slice(&b[i..j]);
+                i = j;
+                continue;
+            }
+            if w == "assembly" {
+                asm_pending = true;
+            }
+            let last = b[j - 1];
+            let elementary = (w.starts_with("uint") || w.starts_with("int") || w.starts_with("bytes")) && w.bytes().skip_while(|x| x.is_ascii_alphabetic()).all(|x| x.is_ascii_digit());
+            let rename = in_asm == 0 && !asm_pending && w.len() >= 2 && (c.is_ascii_lowercase() || c == b'_') && !KEEP.contains(&w) && !elementary && last.is_ascii_alphanumeric();
+            out.extend_from_slice(&b[i..j - 1]);
+            out.push(if !rename {
+                last
+            } else {
+                match last {
+                    b'z' => b'a',
+                    b'Z' => b'A',
+                    b'9' => b'0',
+                    x => x + 1,
+                }
+            });
+            i = j;
+        } else {
+            if c == b'{' && (asm_pending || in_asm > 0) {
+                in_asm += 1;
+                asm_pending = false;
+            } else if c == b'}' && in_asm > 0 {
+                in_asm -= 1;
+            } else if c == b';' {
+                asm_pending = false;
+            }
+            let swapped = if in_asm > 0 {
+                c
+            } else if c == b'+' {
+                b'-'
+            } else if c == b'-' && !(i + 1 < n && b[i + 1] == b'>') {
+                b'+'
+            } else {
+                c
+            };
+            out.push(swapped);
+            i += 1;
+        }
+    }
+    let s = String::from_utf8(out).ok()?;
+    if s.len() != src.len() || s == src {
+        return None;
+    }
+    match catch_unwind(AssertUnwindSafe(|| solang_parser::parse(&s, 0))) {
+        Ok(Ok(_)) => Some(s),
+        _ => None,
+    }
+}
+
 fn analyze_one(idx: usize, name: &str, src: &str) -> BTreeSet<i32> {
     if idx < N_OPT {
         opt::analyze_for_optimization(src, 0, opt::str_to_optimization(name))
@@ -133,7 +262,7 @@ fn analyze_one(idx: usize, name: &str, src: &str) -> BTreeSet<i32> {
     }
 }
 
-fn lines_for(idx: usize, name: &str, src: &str) -> Result<BTreeSet<i32>, ()> {
+fn lines_for(idx: usize, name: &str, src: &str, sib: &Option<String>) -> Result<BTreeSet<i32>, ()> {
     let n = src.len();
     let mut buf = String::with_capacity(n.max(1));
     if n >= DECOY.len() {
@@ -141,6 +270,11 @@ fn lines_for(idx: usize, name: &str, src: &str) -> Result<BTreeSet<i32>, ()> {
         while buf.len() < n {
             buf.push('\n');
         }
+        let _ = catch_unwind(AssertUnwindSafe(|| analyze_one(idx, name, &buf)));
+    }
+    if let Some(s) = sib {
+        buf.clear();
+        buf.push_str(s);
         let _ = catch_unwind(AssertUnwindSafe(|| analyze_one(idx, name, &buf)));
     }
     buf.clear();
@@ -243,6 +377,8 @@ fn prog_files(files: &[std::path::PathBuf], want_walk: bool, want_dump: bool) {
                     DONE.fetch_add(1, SeqCst);
                     continue;
                 }
+                let sib = if src.len() <= 20000 { sibling(&src) } else { None };
+                out.push_str(if sib.is_some() { "sibling yes\n" } else { "sibling no\n" });
                 for (i, (name, f)) in dets.iter().enumerate() {
                     CUR_DET.store(i, SeqCst);
                     let su2 = su.clone();
@@ -250,7 +386,7 @@ fn prog_files(files: &[std::path::PathBuf], want_walk: bool, want_dump: bool) {
                         Ok(set) => out.push_str(&format!("det {} ok {}\n", name, fmt_locs(set))),
                         Err(_) => out.push_str(&format!("det {} PANIC\n", name)),
                     }
-                    match lines_for(i, name, &src) {
+                    match lines_for(i, name, &src, &sib) {
                         Ok(set) => out.push_str(&format!("lines {} ok {}\n", name, fmt_lines(set))),
                         Err(_) => out.push_str(&format!("lines {} PANIC\n", name)),
                     }
@@ -283,6 +419,30 @@ fn prog_files(files: &[std::path::PathBuf], want_walk: bool, want_dump: bool) {
                                 s.push_str(&format!(" {}", ast::walk_node_for_targets(&full, n.clone()).len()));
                             }
                             s.push('\n');
+                            // the multi-kind ENTRY POINT from every node as root must return what the walker returns from that root;
+                            // it is called after the same searches over the sibling's tree (same kinds of roots at the same offsets)
+                            if let Some(sb) = &sib {
+                                if let Ok((ssu, _)) = solang_parser::parse(sb, 0) {
+                                    for n in ast::walk_node_for_targets(&full, ssu.into()) {
+                                        let _ = ast::extract_targets_from_node(targets.clone(), n);
+                                    }
+                                }
+                            }
+                            let mut mism = 0usize;
+                            for n in &nodes {
+                                let a: Vec<_> = ast::walk_node_for_targets(&full, n.clone())
+                                    .iter()
+                                    .map(|x| (target_index(&targets, x.as_target()), node_loc(x)))
+                                    .collect();
+                                let b: Vec<_> = ast::extract_targets_from_node(targets.clone(), n.clone())
+                                    .iter()
+                                    .map(|x| (target_index(&targets, x.as_target()), node_loc(x)))
+                                    .collect();
+                                if a != b {
+                                    mism += 1;
+                                }
+                            }
+                            s.push_str(&format!("walk subx {}\n", mism));
                         } else {
                             s.push_str("walk subskipped\n");
                         }
